@@ -1,7 +1,7 @@
 // Package c07: the script served at /c yields a working, correctly addressed
 // shell.
 //
-// Four engines, all against hsrv.Server in-process on real TLS listeners:
+// Five engines, all against hsrv.Server in-process on real TLS listeners:
 //
 //	precedence  raw requests over all 2^4 presence combinations of c2
 //	            parameter / c2 header / Host / SNI, judged by a reference
@@ -16,6 +16,11 @@
 //	            file, one request after each step; the configured path is a
 //	            plain file, a symbolic link, or passes through a symlinked
 //	            directory (template.go)
+//	carry       large custom templates, clients that go away in the middle of
+//	            their script and templates that fail half-way, mixed with
+//	            well-behaved clients whose every script must be the rendering
+//	            for their own request and nothing else; with GOMAXPROCS(1) and
+//	            with all processors, in child processes (carry.go)
 package c07
 
 import (
@@ -30,6 +35,7 @@ import (
 	"sort"
 	"strings"
 	"sync"
+	"sync/atomic"
 	"syscall"
 	"time"
 
@@ -50,6 +56,15 @@ type ctx struct {
 
 	imu sync.Mutex
 	ids map[string]string // id -> where it was first seen
+
+	amu     sync.Mutex
+	aborted map[string]string // id -> the client that asked for that script and went away (carry engine)
+
+	carryMismatches atomic.Int64
+}
+
+func newCtx(r *mon.Run) *ctx {
+	return &ctx{r: r, vcount: map[string]int{}, ids: map[string]string{}, aborted: map[string]string{}}
 }
 
 // violate records a violation, at most 4 per key (a systematic defect would
@@ -1167,7 +1182,7 @@ func (c *ctx) templateEngine() {
 // ---- entry -----------------------------------------------------------------------
 
 func Run(r *mon.Run) {
-	r.Rule = "hsrv.Server in-process on real TLS. precedence: raw requests over all 16 presence classes of c2 parameter (query, form body, both) / c2 header / Host (header, HTTP/1.0, absolute-form target carrying raw UTF-8) / SNI, with empty values, URL-encoded values, decoy names; each 200 body is parsed into its two curl commands which must agree in pin, authority and ID, the pin must equal base64(sha256(SPKI)) of the leaf presented in that handshake, the authority must equal the reference function written from the statement (IDNA answers from a fixed table), a 'Sent script' notice must carry the same ID/URL; no source at all => status >= 400 and empty body. LISTEN PORTS of the precedence engine: OS-chosen on 127.0.0.1 and [::1], 443 itself, and ports drawn by the PRNG from classes defined by their decimal relation to 443 - ends443 (1443 … 65443), ends43or3 (ends in 43 but not 443, or in 3 but not 43), starts443 (4430-4439, 44300-44399), contains443 (x443y), near443 (442, 444, 44, 43, 4, 3; needs privilege) - per class 2 (thorough 6) listeners alternating 127.0.0.1 / [::1], a port that cannot be bound is skipped for the next candidate of its class (up to 24), per listener 32 (64) requests of which every other one carries nothing but SNI (expected authority: SNI:port for every port but 443) and the rest go round the 16 presence classes; the ports actually used are in coverage.listen_addresses_by_port_class. ids: every ID seen by any engine goes into one set (charset [0-9a-z], no repeat). exec: scripts addressed to the real listener are run by /bin/sh with real curl in their own process group; Input/Output connected with that ID, ready notice, 'echo RT-n-$((6*7))' answered with RT-n-42, exit. template: the configured path is <work>/tmpl-n/current/callback.tmpl in one of four layouts (sequence n: layout (n/2)%4, stealth = same size and mtime for every version if n is odd): plain (directory + regular file), link (callback.tmpl is a symbolic link to a file in store/), dirlink (current is a symbolic link to releases/N), dirlink+link (both); links are relative or absolute and are re-pointed by rename-over or by remove+create (PRNG). Histories of {write A, write B, rename-in, unparsable, failing at execution, empty, delete, directory, no-op} on what the path leads to, plus on a link layout {relink to a new file, relink to an earlier file, remove the link's target, relink to nothing; delete = remove the link, write = edit the link's target in place} and on a dirlink layout {swap current to a new release, to an earlier release, to a release without template, remove current}; the first 10-12 steps of a symlinked sequence are a fixed tour through every kind of link change, the rest is drawn from the PRNG; the link exists and resolves when the server starts; one request after every step, the response must reflect what the configured path leads to as of that request (valid => 200 rendered from the current content; missing/dangling/unparsable/failing => status >= 400 and empty body); a model of the path is kept by the harness and compared with os.ReadFile through the configured path before every verdict. distinct = distinct raw requests (precedence, per listen port for the port classes), executed script IDs, template transitions per layout and histories"
+	r.Rule = "hsrv.Server in-process on real TLS. precedence: raw requests over all 16 presence classes of c2 parameter (query, form body, both) / c2 header / Host (header, HTTP/1.0, absolute-form target carrying raw UTF-8) / SNI, with empty values, URL-encoded values, decoy names; each 200 body is parsed into its two curl commands which must agree in pin, authority and ID, the pin must equal base64(sha256(SPKI)) of the leaf presented in that handshake, the authority must equal the reference function written from the statement (IDNA answers from a fixed table), a 'Sent script' notice must carry the same ID/URL; no source at all => status >= 400 and empty body. LISTEN PORTS of the precedence engine: OS-chosen on 127.0.0.1 and [::1], 443 itself, and ports drawn by the PRNG from classes defined by their decimal relation to 443 - ends443 (1443 … 65443), ends43or3 (ends in 43 but not 443, or in 3 but not 43), starts443 (4430-4439, 44300-44399), contains443 (x443y), near443 (442, 444, 44, 43, 4, 3; needs privilege) - per class 2 (thorough 6) listeners alternating 127.0.0.1 / [::1], a port that cannot be bound is skipped for the next candidate of its class (up to 24), per listener 32 (64) requests of which every other one carries nothing but SNI (expected authority: SNI:port for every port but 443) and the rest go round the 16 presence classes; the ports actually used are in coverage.listen_addresses_by_port_class. ids: every ID seen by any engine goes into one set (charset [0-9a-z], no repeat). exec: scripts addressed to the real listener are run by /bin/sh with real curl in their own process group; Input/Output connected with that ID, ready notice, 'echo RT-n-$((6*7))' answered with RT-n-42, exit. template: the configured path is <work>/tmpl-n/current/callback.tmpl in one of four layouts (sequence n: layout (n/2)%4, stealth = same size and mtime for every version if n is odd): plain (directory + regular file), link (callback.tmpl is a symbolic link to a file in store/), dirlink (current is a symbolic link to releases/N), dirlink+link (both); links are relative or absolute and are re-pointed by rename-over or by remove+create (PRNG). Histories of {write A, write B, rename-in, unparsable, failing at execution, empty, delete, directory, no-op} on what the path leads to, plus on a link layout {relink to a new file, relink to an earlier file, remove the link's target, relink to nothing; delete = remove the link, write = edit the link's target in place} and on a dirlink layout {swap current to a new release, to an earlier release, to a release without template, remove current}; the first 10-12 steps of a symlinked sequence are a fixed tour through every kind of link change, the rest is drawn from the PRNG; the link exists and resolves when the server starts; one request after every step, the response must reflect what the configured path leads to as of that request (valid => 200 rendered from the current content; missing/dangling/unparsable/failing => status >= 400 and empty body); a model of the path is kept by the harness and compared with os.ReadFile through the configured path before every verdict. carry (carry.go; nothing of one request's script may reach another request, in particular not through a request that failed): the configured template is a shell script of 1 KiB, 6 KiB, 24 KiB, 96 KiB, 384 KiB, 1.5 MiB or 8 MiB (sequence n: size class (n/4)%7, actual size 75-100% of it; 8-600 comment lines each carrying {{.ID}} and {{.URL}}, the two curl commands of the default template after the first line, in the middle or at the end), so that every rendering names its request on every line; every request of a sequence has its own callback address (c2 parameter, c2 header or Host in turn). Well-behaved clients (fresh connection or a persistent one, Content-Length and chunked answers) are mixed on the same server with clients that ask for the script and go away: TCP reset (linger 0) without reading, after 1 byte, after a part (1 byte … half the script / 256 KiB); TLS close after 1 byte or a part; the socket closed under TLS after a part; one in five on a connection that has served a complete script before; these clients announce a receive buffer of 32-256 KiB and a segment size of 1400 or 536 bytes (or the defaults) before connecting, as a remote client does, so that the server is still sending a large script when they leave (counted as carry_aborts_mid_write: the handler's 'Sent script' notice is not among the operator lines before a marker sent when the client has read its part, and appears after it left). Sequential sequences ((n/2) even): a fixed tour, then PRNG-drawn disturbances {one or two leaving clients, the template rewritten (new version, new size, new layout; half the time followed by a leaving client), the template replaced by one that emits up to 1 MiB of output and then fails at execution - unknown field, index/slice out of range, missing sub-template, len/call of a wrong type - requested once or twice (status >= 400 and an empty body) and replaced by a valid one again}, each followed by one or two well-behaved requests or three at once. Concurrent sequences ((n/2) odd): two well-behaved clients (one persistent connection) and two leaving clients at the same time, then three more requests. Half of the sequences (n even) run in a child process with runtime.GOMAXPROCS(1), one at a time; the other half in a child process with all processors, three servers at a time (both beside the other engines). EVERY completely received 200 answer (HTTP framing complete) is compared byte for byte with the reference rendering for its own request - the pieces of the template text the file held at the time of the request with the ID found after the first '/i/', the request's callback address and the pin of the key presented in that handshake substituted by the harness itself (no template library) - so it starts with the template's first bytes, has exactly the reference's length and carries one ID; the ID goes into the run's set (no repeat, safe characters); a differing body is searched for the IDs and callback addresses it carries (those of clients that went away are remembered) and for its own rendering as a suffix. What a leaving client read is only used thus: if the first complete 'id=… url=…' it contains names another request's callback address, that is the same violation. distinct = distinct raw requests (precedence, per listen port for the port classes), executed script IDs, template transitions per layout and histories, carry (size class, mode, processors, connection kind, preceding disturbance, framing) and leaving-client shapes"
 	r.Assumptions = []string{
 		"the host information of a request with an absolute-form target is the target's authority (RFC 7230 5.4/5.5); Unicode hosts can only be sent this way because net/http rejects a non-ASCII Host header before any handler runs",
 		"an empty c2 value counts as not given; when one of query/body is 'c2=' and the other has a value, either reading is accepted (counted under ambiguous_param:*)",
@@ -1176,12 +1191,14 @@ func Run(r *mon.Run) {
 		"the default template's shape (two 'curl -Nsk --pinnedpubkey \"sha256//…\" https://…' lines) is what the script parser understands",
 		"'the listen port unless that is 443' is read numerically: only the port 443 is left out of the SNI fallback; every other port, whatever its digits, is appended",
 		"'the configured template file' is whatever the configured path leads to at the time of the request (the operating system's path resolution, symbolic links included), not what it led to when the server started; a dangling link is a missing template",
+		"carry engine: the statement's 'for every request to /c the returned script …' is read as: every script is the rendering of the template as it is at that request with that request's own ID, address and pin and nothing else - whatever happened to earlier requests (client gone, template failing); only completely received answers are judged in full, a well-behaved client whose answer does not arrive completely within 90 s is inconclusive; a template that fails while being executed counts as the statement's 'unparsable' template (error status, no script), as in the template engine",
+		"carry engine: the leaving clients' small receive window and Ethernet segment size, the pauses of 0-30 ms before a reset without reading and the waits (at most 5 s, 150 ms after three misses) for the 'Sent script' notice of a client that left only shape the schedule (the next request comes when the previous handler has ended); no verdict depends on them; 'mid-write' is a coverage counter derived from the order of operator lines, floors on it make a run that never had a client leave during sending inconclusive",
 		"a port class none of whose candidates can be bound on a loopback address (no privilege for near443, every candidate taken) is reported as not explored (coverage.port_classes_not_explored, an added assumption line) and does not fail the run; at least one class must have been explored",
 	}
-	c := &ctx{r: r, vcount: map[string]int{}, ids: map[string]string{}}
+	c := newCtx(r)
 
 	var wg sync.WaitGroup
-	for _, f := range []func(){c.precedenceEngine, c.idsEngine, c.templateEngine} {
+	for _, f := range []func(){c.precedenceEngine, c.idsEngine, c.templateEngine, c.carryEngine} {
 		wg.Add(1)
 		go func() { defer wg.Done(); f() }()
 	}
@@ -1217,5 +1234,6 @@ func Run(r *mon.Run) {
 	r.Floor("template_renders_matched", int64(r.N(60, 480)))
 	r.Floor("template_errors_checked", int64(r.N(60, 480)))
 	templateFloors(r)
+	carryFloors(r)
 	r.Floor("error_responses_checked", 40)
 }
